@@ -69,11 +69,10 @@ theorem dart_param_agree_partial (env : Env) (sup : Support) (t : TyName)
       refine ⟨.prim f, .prim c, by simp [dartParamTy, hdp], by simp [cTy, hc], ?_⟩
       have hf : dartFfiAbi f = some (rustPrimAbi p) := by simpa [hdp] using hp
       simp [sameWire, cAbiSimple, dAbiSimple, ha, hf]
-      cases p <;> simp [rustPrimAbi]
   | struct _ n fields hg hne =>
     exact ⟨.structTy n, .structTy n, by simp [dartParamTy, hg], by simp [cTy, hg], by simp [sameWire, cAbiSimple, dAbiSimple]⟩
   | enum _ n hg =>
-    exact ⟨.enumTy, .enumTy n, by simp [dartParamTy, hg], by simp [cTy, hg], by simp [sameWire, cAbiSimple, dAbiSimple]⟩
+    exact ⟨.enumTy, .enumTy n, by simp [dartParamTy, hg], by simp [cTy, hg], by simp [sameWire, cAbiSimple, dAbiSimple, normTok]⟩
   | refOpaque _ lt m t ho =>
     obtain ⟨n, rfl, hn⟩ := isOpaque_named ho
     exact ⟨.opaquePtr, .opaquePtr (!m) n, by simp [dartParamTy, hn], by simp [cTy, hn], by simp [sameWire, cAbiSimple, dAbiSimple]⟩
@@ -113,11 +112,10 @@ theorem kt_param_agree_partial (env : Env) (sup : Support) (t : TyName)
       refine ⟨.prim f, .prim c, by simp [ktParamTy, hdp], by simp [cTy, hc], ?_⟩
       have hf : jnaAbi f = some (rustPrimAbi p) := by simpa [hdp] using hp
       simp [sameWire, cAbiSimple, kAbiSimple, ha, hf]
-      cases p <;> simp [rustPrimAbi]
   | struct _ n fields hg hne =>
     exact ⟨.structTy n, .structTy n, by simp [ktParamTy, hg], by simp [cTy, hg], by simp [sameWire, cAbiSimple, kAbiSimple]⟩
   | enum _ n hg =>
-    exact ⟨.enumTy, .enumTy n, by simp [ktParamTy, hg], by simp [cTy, hg], by simp [sameWire, cAbiSimple, kAbiSimple]⟩
+    exact ⟨.enumTy, .enumTy n, by simp [ktParamTy, hg], by simp [cTy, hg], by simp [sameWire, cAbiSimple, kAbiSimple, normTok]⟩
   | refOpaque _ lt m t ho =>
     obtain ⟨n, rfl, hn⟩ := isOpaque_named ho
     exact ⟨.pointer, .opaquePtr (!m) n, by simp [ktParamTy, hn], by simp [cTy, hn], by simp [sameWire, cAbiSimple, kAbiSimple]⟩
@@ -146,6 +144,105 @@ theorem kt_param_agree_partial (env : Env) (sup : Support) (t : TyName)
   | optStr _ lt e s sd _ _ => simp [ktParamTy] at hd
   | optSlice _ ltm p s sd _ _ => simp [ktParamTy] at hd
   | callback ps r _ _ _ => simp [ktParamTy] at hd
+
+/-! ### Dart: the complete native signature -/
+
+theorem dart_prim_some (p : Prim) (h : is128 p = false) :
+    ∃ f, dartPrim p = some f ∧ dartFfiAbi f = some (rustPrimAbi p) := by
+  have := dart_prim_agree p h
+  cases hf : dartPrim p with
+  | none => simp [hf] at this
+  | some f => exact ⟨f, rfl, by simpa [hf] using this⟩
+
+theorem sameWire_refl (a : Option Abi) : sameWire a a = true := by simp [sameWire]
+
+/-- Dart's and C's types for one accepted position describe the same thing on the wire. Stated for *every* type
+    for which both generators produce a type (no gate hypothesis needed): primitives, enums (a C enum read as a
+    32-bit integer), structs by value, opaque pointers (optional or not, borrowed or owned), all slices and
+    strings, and optionals of non-pointers as `{union{T}, bool}` records. -/
+theorem dart_ty_agree (env : Env) (t : TyName) (c : CTy) (d : NTy) (h128 : has128 t = false)
+    (hc : cTy env t = some c) (hd : dartTy env t = some d) :
+    sameWire (cAbi c) (nAbi d) = true := by
+  have hstr := inst_string; have hstr16 := inst_string16; have hstrs := inst_strings; have hstrs16 := inst_strings16
+  obtain ⟨c8, h8⟩ := hstr; obtain ⟨c16, h16⟩ := hstr16; obtain ⟨cs8, hs8⟩ := hstrs; obtain ⟨cs16, hs16⟩ := hstrs16
+  cases t with
+  | prim p =>
+    obtain ⟨cn, hcn, hca⟩ := cPrim_some p (by simpa [has128] using h128)
+    obtain ⟨f, hf, hfa⟩ := dart_prim_some p (by simpa [has128] using h128)
+    simp [cTy, hcn] at hc; simp [dartTy, hf] at hd; subst hc; subst hd
+    simp [sameWire, cAbiSimple, nAbi, nAbiSimple, hca, hfa]
+  | ordering =>
+    obtain ⟨cn, hcn, hca⟩ := cPrim_some .i8 rfl
+    obtain ⟨f, hf, hfa⟩ := dart_prim_some .i8 rfl
+    simp [cTy, hcn] at hc; simp [dartTy, hf] at hd; subst hc; subst hd
+    simp [sameWire, cAbiSimple, nAbi, nAbiSimple, hca, hfa]
+  | named n =>
+    cases hg : env.get n with
+    | none => simp [cTy, hg] at hc
+    | some k =>
+      cases k <;> simp [cTy, hg] at hc <;> simp [dartTy, hg] at hd <;> subst hc <;> subst hd <;>
+        simp [sameWire, cAbiSimple, nAbi, nAbiSimple, normTok]
+  | ref lt m x =>
+    cases x <;> simp [cTy] at hc
+    rename_i n
+    simp [dartTy] at hd
+    obtain ⟨_, rfl⟩ := hc; obtain ⟨_, rfl⟩ := hd
+    simp [sameWire, cAbiSimple, nAbi, nAbiSimple]
+  | box x =>
+    cases x <;> simp [cTy] at hc
+    rename_i n
+    simp [dartTy] at hd
+    obtain ⟨_, rfl⟩ := hc; obtain ⟨_, rfl⟩ := hd
+    simp [sameWire, cAbiSimple, nAbi, nAbiSimple]
+  | strRef lt e sd =>
+    simp [cTy] at hc; simp [dartTy, dartSliceName] at hd; subst hc; subst hd
+    cases hu : isU16 e <;> simp [sameWire, cAbiSimple, nAbi, nAbiSimple, h8, h16]
+  | strSlice e sd =>
+    simp [cTy] at hc; simp [dartTy, dartSliceName] at hd; subst hc; subst hd
+    cases hu : isU16 e <;> simp [sameWire, cAbiSimple, nAbi, nAbiSimple, hs8, hs16]
+  | primSlice l p sd =>
+    obtain ⟨dn, ci, hdn, hci⟩ := derived_instance_some p (by simpa [has128] using h128)
+    simp [cTy, hdn] at hc; subst hc
+    simp [dartTy, dartSliceName] at hd
+    obtain ⟨nm, _, rfl⟩ := hd
+    simp [sameWire, cAbiSimple, nAbi, nAbiSimple, hci]
+  | opt x sd =>
+    cases x with
+    | prim p =>
+      obtain ⟨dn, hdn, hda⟩ := derived_some p (by simpa [has128] using h128)
+      obtain ⟨f, hf, hfa⟩ := dart_prim_some p (by simpa [has128] using h128)
+      simp [cTy, hdn] at hc; simp [dartTy, hf] at hd; subst hc; subst hd
+      simp [sameWire, cAbiSimple, nAbi, nArmAbi, nAbiSimple, hda, hfa]
+    | named n =>
+      cases hg : env.get n with
+      | none => simp [cTy, hg] at hc
+      | some k =>
+        cases k <;> simp [cTy, hg] at hc <;> simp [dartTy, hg] at hd <;> subst hc <;> subst hd <;>
+          simp [sameWire, cAbiSimple, nAbi, nArmAbi, nAbiSimple, normTok, mkResult, mkStruct, mkUnion]
+    | ref lt m y =>
+      cases y <;> simp [cTy] at hc
+      simp [dartTy] at hd
+      obtain ⟨_, rfl⟩ := hc; obtain ⟨_, rfl⟩ := hd
+      simp [sameWire, cAbiSimple, nAbi, nAbiSimple]
+    | box y =>
+      cases y <;> simp [cTy] at hc
+      simp [dartTy] at hd
+      obtain ⟨_, rfl⟩ := hc; obtain ⟨_, rfl⟩ := hd
+      simp [sameWire, cAbiSimple, nAbi, nAbiSimple]
+    | strRef lt e s2 =>
+      simp [cTy] at hc; simp [dartTy, dartSliceName] at hd; subst hc; subst hd
+      cases hu : isU16 e <;> simp [sameWire, cAbiSimple, nAbi, nArmAbi, nAbiSimple, h8, h16]
+    | strSlice e s2 =>
+      simp [cTy] at hc; simp [dartTy, dartSliceName] at hd; subst hc; subst hd
+      cases hu : isU16 e <;> simp [sameWire, cAbiSimple, nAbi, nArmAbi, nAbiSimple, hs8, hs16]
+    | primSlice l p s2 =>
+      obtain ⟨dn, ci, hdn, hci⟩ := derived_instance_some p (by simpa [has128] using h128)
+      simp [cTy, hdn] at hc; subst hc
+      simp [dartTy, dartSliceName] at hd
+      obtain ⟨nm, _, rfl⟩ := hd
+      simp [sameWire, cAbiSimple, nAbi, nArmAbi, nAbiSimple, hci]
+    | _ => simp [cTy] at hc
+  | _ => simp [cTy] at hc
 
 /-! ### non-vacuity -/
 example : (dartParamTy C01.envEx (.ref .anon false (.named "Op"))).isSome = true
